@@ -51,13 +51,17 @@ class Deadlock(AssertionError):
 class Ev:
     """Stub threading.Event."""
 
-    hook = None  # callable run when a wait finds the flag unset (the scheduler)
+    hook = None    # callable run when a wait finds the flag unset (the scheduler)
+    on_set = None  # callable run right after an event was set: the woken thread may run immediately
 
     def __init__(self, flag=False):
         self.flag = flag
 
     def set(self):
+        was = self.flag
         self.flag = True
+        if not was and Ev.on_set is not None:
+            Ev.on_set(self)
 
     def clear(self):
         self.flag = False
@@ -76,6 +80,8 @@ class Ev:
 class Lk:
     """Stub threading.Lock: non-reentrant; nesting would be a self-deadlock."""
 
+    on_exit = None  # callable run right after the inner lock was released: another thread's atomic action may run here
+
     def __init__(self):
         self.held = False
 
@@ -87,6 +93,13 @@ class Lk:
 
     def __exit__(self, *a):
         self.held = False
+        if Lk.on_exit is not None:
+            cb, Lk.on_exit = Lk.on_exit, None
+            try:
+                cb()
+            finally:
+                if Lk.on_exit is None:
+                    Lk.on_exit = cb
         return False
 
     def acquire(self, *a, **k):
@@ -107,7 +120,14 @@ def inv(flags, broken):
     return all(f == (i == 0) for i, f in enumerate(flags))
 
 
+def reset_hooks():
+    Ev.hook = None
+    Ev.on_set = None
+    Lk.on_exit = None
+
+
 def mk(flags, broken):
+    reset_hooks()
     lock = T.OrderedLock()
     lock._waiters = deque(Ev(f) for f in flags)
     lock._is_broken = broken
@@ -269,7 +289,14 @@ def scenario_acquire(npred: int, fail0: bool, fail1: bool, fail2: bool):
         if not my_event.flag:
             raise Deadlock("lost wakeup: every predecessor left but the arrival was never woken")
 
+    def woken(ev):
+        # the woken waiter may run at once: everything it reads after the wait must already be published
+        if state["first_fail"] is not None:
+            h.check(lock._is_broken and lock._exception is state["first_fail"],
+                    "waiter woken before the break was published (it could read _is_broken == False and take ownership)")
+
     Ev.hook = scheduler
+    Ev.on_set = woken
     try:
         try:
             r = lock.acquire()
@@ -278,7 +305,7 @@ def scenario_acquire(npred: int, fail0: bool, fail1: bool, fail2: bool):
             got = "error"
             err = e
     finally:
-        Ev.hook = None
+        reset_hooks()
     if state["first_fail"] is None:
         h.check(got == "acquired" and r is True, "arrival must own the lock after all predecessors released")
         h.check(len(lock._waiters) == 1 and lock._waiters[0].flag, "owner must be the only, set, head")
@@ -367,6 +394,112 @@ def scenario_counter(c0: int, npred: int):
     h.end()
 
 
+@h.lemma(timeout=120, funcs=FUNCS, reach=("end", "t1owner", "t1blocked"),
+         bounds="arbitrary unbroken Inv-state (queue <= 2); arrival T1 runs the real acquire and a second arrival T2 runs the real acquire "
+                "at the k-th release of the inner lock inside T1's acquire (k solver-chosen: every lock-boundary interleaving of two arrivals)")
+def scenario_two_arrivals(flags: List[bool], k: int):
+    """
+    pre: len(flags) <= 2
+    pre: inv(flags, False)
+    pre: 0 <= k <= 2
+    post: True
+    """
+    lock = mk(flags, False)
+    n = len(flags)
+    st = {"exits": 0, "t2": None}
+
+    def boundary():
+        st["exits"] += 1
+        if st["exits"] == k and st["t2"] is None:
+            hk, Ev.hook = Ev.hook, None
+            try:
+                lock.acquire()
+                st["t2"] = "acquired"
+            except Blocked:
+                st["t2"] = "blocked"
+            finally:
+                Ev.hook = hk
+
+    Lk.on_exit = boundary
+    try:
+        try:
+            lock.acquire()
+            t1 = "acquired"
+        except Blocked:
+            t1 = "blocked"
+    finally:
+        reset_hooks()
+    new = flags_of(lock)
+    arrivals = 1 + (1 if st["t2"] is not None else 0)
+    h.check(len(new) == n + arrivals, "each arrival queued exactly once")
+    h.check(inv(new, False), "Inv broken by two racing arrivals (lost wakeup: nobody owns a non-empty queue)")
+    if n == 0:
+        h.reach("t1owner")
+        h.check(t1 == "acquired", "first arrival at a free lock must own it even if a second arrival races in")
+        h.check(st["t2"] in (None, "blocked"), "second arrival must wait")
+    else:
+        h.reach("t1blocked")
+        h.check(t1 == "blocked" and st["t2"] in (None, "blocked"))
+    h.end()
+
+
+@h.lemma(timeout=120, funcs=FUNCS, reach=("end", "succ"),
+         bounds="counter arbitrary; incrementer T behind <= 2 predecessors and with 0/1 successor S queued behind it; S runs its own increment "
+                "(effect +1) the instant its event is set (models immediate preemption after the wake-up)")
+def scenario_counter_successor(c0: int, npred: int, with_succ: bool):
+    """
+    pre: 0 <= npred <= 2
+    post: True
+    """
+    ctr = T.OrderedCounter()
+    ctr._counter = c0
+    lock = ctr._lock
+    reset_hooks()
+    lock._waiters = deque(Ev(i == 0) for i in range(npred))
+    st = {"succ_ev": None, "succ_ran": False, "mine": None}
+
+    def boundary():
+        # right after T queued itself: a successor arrives behind it
+        if with_succ and st["succ_ev"] is None and len(lock._waiters) == npred + 1:
+            hk, Ev.hook = Ev.hook, None  # the successor simply blocks (its wait is not T's scheduling point)
+            try:
+                lock.acquire()
+                h.check(False, "successor acquired while T is queued ahead of it")
+            except Blocked:
+                pass
+            finally:
+                Ev.hook = hk
+            st["succ_ev"] = lock._waiters[-1]
+            st["mine"] = lock._waiters[npred]
+
+    def woken(ev):
+        if ev is st["succ_ev"]:
+            # S owns the lock now and runs to completion immediately
+            st["succ_ran"] = True
+            ctr._counter += 1
+
+    def scheduler(my_event):
+        for _ in range(npred):
+            ctr._counter += 1
+            lock.__exit__(None, None, None)
+        if not my_event.flag:
+            raise Deadlock("lost wakeup")
+
+    Lk.on_exit = boundary
+    Ev.on_set = woken
+    Ev.hook = scheduler
+    try:
+        v = ctr.increment()
+    finally:
+        reset_hooks()
+    h.check(v == c0 + npred + 1, "increment must return the value it produced under the lock (no gap/duplicate when a successor runs at once)")
+    if with_succ:
+        h.reach("succ")
+        h.check(st["succ_ran"], "successor must be woken by T's release")
+        h.check(ctr._counter == c0 + npred + 2)
+    h.end()
+
+
 @h.lemma(timeout=30, funcs=FUNCS, bounds="AST of threading.py as found in /repo", kind="qz")
 def locked_writes():
     """Every write to OrderedLock._waiters/_is_broken/_exception (outside __init__) is lexically inside `with self._lock`."""
@@ -406,6 +539,14 @@ def locked_writes():
             for t in node.targets:
                 if isinstance(t, ast.Attribute) and t.attr in ("_waiters", "_is_broken", "_exception"):
                     self._w(node, t.attr)
+            self.generic_visit(node)
+
+        def visit_Attribute(self, node):
+            nonlocal n_writes
+            if node.attr == "_waiters" and self.fn != "__init__":
+                n_writes += 1
+                if not self.locked:
+                    bad.append(f"{self.fn}:{node.lineno}:access to _waiters outside the inner lock")
             self.generic_visit(node)
 
         def visit_Call(self, node):
